@@ -20,6 +20,7 @@ import (
 
 	"verifharness/dev"
 	"verifharness/hx"
+	"verifharness/indep"
 	"verifharness/mk"
 )
 
@@ -31,17 +32,18 @@ type c10Op struct {
 }
 
 type c10Case struct {
-	FS   string  `json:"fs"`
-	Size int     `json:"size"`
-	Frag bool    `json:"frag"`
-	Ops  []c10Op `json:"ops"`
+	FS    string  `json:"fs"`
+	Size  int     `json:"size"`
+	Frag  bool    `json:"frag"`
+	Start int64   `json:"start,omitempty"` // offset of the filesystem inside a larger device
+	Ops   []c10Op `json:"ops"`
 }
 
-var c10Variants = []string{"fat12", "fat16", "fat32", "ext4-1k", "ext4-4k", "iso", "iso-rr", "sq-none", "sq-gzip", "sq-zstd", "sq-xz", "sq-lz4", "sq-gzip-nofrag"}
+var c10Variants = []string{"fat12", "fat16", "fat32", "ext4-1k", "ext4-4k", "ext4-sparse", "iso", "iso-rr", "sq-none", "sq-gzip", "sq-zstd", "sq-xz", "sq-lz4", "sq-gzip-nofrag"}
 
 func c10Unit(v string) int {
 	switch v {
-	case "fat12", "fat16", "ext4-1k":
+	case "fat12", "fat16", "ext4-1k", "ext4-sparse":
 		return 1024
 	case "fat32":
 		return 512
@@ -117,8 +119,28 @@ func writeInterleaved(fs filesystem.FileSystem, target, other string, data []byt
 	return nil
 }
 
-func c10Build(v string, size int, frag bool) *c10Image {
-	key := fmt.Sprintf("%s/%d/%v", v, size, frag)
+// c10SparseContent is a file of the given size whose 1 KiB blocks are data only at every third position
+// (and at the very end, so that mke2fs -d does not drop a trailing hole): hole, data, hole, hole, data, ...
+func c10SparseContent(size int, dense bool) []byte {
+	b := make([]byte, size)
+	data := mk.Content{Seed: uint32(size)*7 + 3, Len: size, Style: 0}.Bytes()
+	for k := 0; k*1024 < size; k++ {
+		end := (k + 1) * 1024
+		if end > size {
+			end = size
+		}
+		if k%3 == 1 || end == size || (dense && k%2 == 0) {
+			copy(b[k*1024:end], data[k*1024:end])
+			if b[end-1] == 0 {
+				b[end-1] = 0x5a
+			}
+		}
+	}
+	return b
+}
+
+func c10Build(v string, size int, frag bool, st int64) *c10Image {
+	key := fmt.Sprintf("%s/%d/%v/%d", v, size, frag, st)
 	c10Mu.Lock()
 	defer c10Mu.Unlock()
 	if im, ok := c10Cache[key]; ok {
@@ -133,8 +155,8 @@ func c10Build(v string, size int, frag bool) *c10Image {
 		case "fat12", "fat16", "fat32":
 			vol := map[string]int64{"fat12": 4 << 20, "fat16": 16 << 20, "fat32": 3 << 20}[v]
 			im.size = vol
-			im.d = dev.New(vol)
-			fs, err := mk.CreateFAT(v, im.d, vol, 0, 512, "C10", true)
+			im.d = dev.New(vol + st + 4096)
+			fs, err := mk.CreateFAT(v, im.d, vol, st, 512, "C10", true)
 			if err != nil {
 				im.err = err
 				return
@@ -144,7 +166,7 @@ func c10Build(v string, size int, frag bool) *c10Image {
 				return
 			}
 			im.open = func() (filesystem.File, error) {
-				r, err := mk.ReadFAT(v, im.d, vol, 0, 512)
+				r, err := mk.ReadFAT(v, im.d, vol, st, 512)
 				if err != nil {
 					return nil, err
 				}
@@ -160,8 +182,8 @@ func c10Build(v string, size int, frag bool) *c10Image {
 				o.ResizeIno = &f
 			}
 			im.size = vol
-			im.d = dev.New(vol)
-			fs, err := mk.CreateExt4(im.d, vol, 0, o)
+			im.d = dev.New(vol + st + 4096)
+			fs, err := mk.CreateExt4(im.d, vol, st, o)
 			if err != nil {
 				im.err = err
 				return
@@ -171,7 +193,63 @@ func c10Build(v string, size int, frag bool) *c10Image {
 				return
 			}
 			im.open = func() (filesystem.File, error) {
-				r, err := ext4.Read(im.d, vol, 0, 512)
+				r, err := ext4.Read(im.d, vol, st, 512)
+				if err != nil {
+					return nil, err
+				}
+				return r.OpenFile("target.bin", os.O_RDONLY)
+			}
+		case "ext4-sparse":
+			// a sparse file inside an image made by the reference mke2fs -d (which keeps the holes): the handle
+			// has to honour the contract across hole/extent boundaries as well
+			im.bytes = c10SparseContent(size, frag)
+			dir, err := os.MkdirTemp("", "verif_c10")
+			if err != nil {
+				im.err = err
+				return
+			}
+			defer os.RemoveAll(dir)
+			if im.err = os.Mkdir(dir+"/src", 0o755); im.err != nil {
+				return
+			}
+			fh, err := os.Create(dir + "/src/target.bin")
+			if err != nil {
+				im.err = err
+				return
+			}
+			for k := 0; k*1024 < size; k++ {
+				end := (k + 1) * 1024
+				if end > size {
+					end = size
+				}
+				if !bytes.Equal(im.bytes[k*1024:end], make([]byte, end-k*1024)) {
+					if _, im.err = fh.WriteAt(im.bytes[k*1024:end], int64(k)*1024); im.err != nil {
+						return
+					}
+				}
+			}
+			if im.err = fh.Truncate(int64(size)); im.err != nil {
+				return
+			}
+			fh.Close()
+			if im.err = os.WriteFile(dir+"/src/other.bin", bytes.Repeat([]byte{0xEE}, 3000), 0o644); im.err != nil {
+				return
+			}
+			if _, infra := indep.Mke2fs(dir+"/img", 4096, "-t", "ext4", "-b", "1024", "-I", "256", "-O", "^has_journal", "-d", dir+"/src"); infra != "" {
+				im.err = fmt.Errorf("%s", infra)
+				return
+			}
+			raw, err := os.ReadFile(dir + "/img")
+			if err != nil {
+				im.err = err
+				return
+			}
+			vol := int64(len(raw))
+			im.size = vol
+			im.d = dev.New(vol + st + 4096)
+			im.d.Poke(st, raw)
+			im.open = func() (filesystem.File, error) {
+				r, err := ext4.Read(im.d, vol, st, 512)
 				if err != nil {
 					return nil, err
 				}
@@ -180,15 +258,15 @@ func c10Build(v string, size int, frag bool) *c10Image {
 		case "iso", "iso-rr":
 			vol := int64(8 << 20)
 			im.size = vol
-			im.d = dev.New(vol)
+			im.d = dev.New(vol + st + 4096)
 			name := "target.bin"
 			tree := []mk.Entry{{Path: name, Kind: mk.KFile, Data: mk.Content{Seed: uint32(size)*7 + 1, Len: size}}, {Path: "other.bin", Kind: mk.KFile, Data: mk.Content{Seed: 5, Len: 3000}}}
-			if err := mk.BuildISO(im.d, vol, 0, 2048, tree, mk.IsoOpts{RockRidge: v == "iso-rr"}); err != nil {
+			if err := mk.BuildISO(im.d, vol, st, 2048, tree, mk.IsoOpts{RockRidge: v == "iso-rr"}); err != nil {
 				im.err = err
 				return
 			}
 			im.open = func() (filesystem.File, error) {
-				r, err := iso9660.Read(im.d, vol, 0, 2048)
+				r, err := iso9660.Read(im.d, vol, st, 2048)
 				if err != nil {
 					return nil, err
 				}
@@ -200,13 +278,14 @@ func c10Build(v string, size int, frag bool) *c10Image {
 		default: // squashfs
 			vol := int64(8 << 20)
 			im.size = vol
-			im.d = dev.New(vol)
+			im.d = dev.New(vol + st + 4096)
 			o := mk.SqOpts{}
 			switch v {
 			case "sq-none":
 				o.Comp = "none"
 			case "sq-gzip":
 				o.Comp = "gzip"
+				o.Level = 6
 			case "sq-zstd":
 				o.Comp = "zstd"
 			case "sq-xz":
@@ -227,12 +306,12 @@ func c10Build(v string, size int, frag bool) *c10Image {
 				{Path: "target.bin", Kind: mk.KFile, Data: mk.Content{Seed: uint32(size)*7 + 1, Len: size, Style: style}},
 				{Path: "zother.bin", Kind: mk.KFile, Data: mk.Content{Seed: 6, Len: 900}},
 			}
-			if err := mk.BuildSquashfs(im.d, vol, 0, 4096, tree, o); err != nil {
+			if err := mk.BuildSquashfs(im.d, vol, st, 4096, tree, o); err != nil {
 				im.err = err
 				return
 			}
 			im.open = func() (filesystem.File, error) {
-				r, err := squashfs.Read(im.d, vol, 0, 4096)
+				r, err := squashfs.Read(im.d, vol, st, 4096)
 				if err != nil {
 					return nil, err
 				}
@@ -258,6 +337,7 @@ func genC10(t *rapid.T) any {
 		c.Size = rapid.SampledFrom(sizes).Draw(t, "sizeB")
 	}
 	c.Frag = rapid.Bool().Draw(t, "frag")
+	c.Start = rapid.SampledFrom([]int64{0, 0, 1 << 20}).Draw(t, "start")
 	lens := []int{0, 1, 3, 7, u - 1, u, u + 1, 2*u + 5, 100, 1 << 20}
 	nops := rapid.IntRange(1, 24).Draw(t, "nops")
 	for i := 0; i < nops; i++ {
@@ -298,7 +378,7 @@ func genC10(t *rapid.T) any {
 func execC10(ci any) (r hx.Result) {
 	c := ci.(c10Case)
 	r.Class("fs:" + c.FS)
-	im := c10Build(c.FS, c.Size, c.Frag)
+	im := c10Build(c.FS, c.Size, c.Frag, c.Start)
 	if im.err != nil {
 		// building a plain file through the public API is inside every
 		// property's domain; a failure here is reported by C01/C04/C06/C07.
